@@ -141,7 +141,18 @@ let cmd_splitlines args =
   | [s] -> String.concat " " (SL.map token_of_str (splitlines (str_of_token s)))
   | _ -> failwith "splitlines"
 
+(* vars <script> : prepare_variables with the query evaluation abstracted to the
+   identity on the expression text, message = "M", file name = "F" (string tokens) *)
+let cmd_vars args =
+  match args with
+  | [s] ->
+    let (_, m) = process_embedded_query_expr (str_of_token s) in
+    let vars = prepare_variables (fun k -> "Q" ^ token_of_str k) "M" "F" m in
+    String.concat " " (SL.map (fun (n, v) -> token_of_str n ^ "=" ^ v) vars)
+  | _ -> failwith "vars"
+
 let () =
+  register "vars" cmd_vars;
   register "prep" cmd_prep;
   register "level" cmd_level;
   register "pragma" cmd_pragma;
